@@ -206,6 +206,16 @@ def run(ctx):
                 fs.append(fnd("C13.TABLE", v, "From<Value> does not map %s to Number::from(the same integer)" % dv))
         rs = results_in(v, arms.get("Float", set()))
         ok = len(rs) == 1 and term_mentions(rs[0][1], lambda t: t[0] == "call" and call_name(v, t) == "serde_json::Number::from_f64" and payload_of(t[3][0], "Float"))
+        if not ok and rs:
+            # `match Number::from_f64(f) { Some(n) => Number(n), None => Null }`
+            nums = [r for r in rs if is_agg(r[1], "serde_json::Value", "Number")]
+            others = [r for r in rs if not is_agg(r[1], "serde_json::Value", "Number") and not is_agg(r[1], "serde_json::Value", "Null")]
+            ok = bool(nums) and not others
+            for r in nums:
+                for a in v.alts(r[1][2][0]):
+                    a = canon(v, a)
+                    if not (a[0] == "field" and a[2] == "Some" and a[1][0] == "call" and call_name(v, a[1]) == "serde_json::Number::from_f64" and payload_of(a[1][3][0], "Float")):
+                        ok = False
         if not ok:
             fs.append(fnd("C13.TABLE", v, "From<Value> does not build floats with Number::from_f64(the same float)"))
         # Sequence: Array(collect(map(From::from, map(into_value, into_iter(seq)))))
@@ -225,7 +235,15 @@ def run(ctx):
             ok = chain == ["std::iter::Iterator::collect", "std::iter::Iterator::map", "std::iter::Iterator::map", "Sequence::into_iter"] \
                 and payload_of(t, "Sequence") and len(fns) == 2 and "From" in fns[0] and fns[0].endswith("from") and fns[1].endswith("into_value")
         if not ok:
-            fs.append(fnd("C13.REC", v, "From<Value> does not rebuild arrays element by element in order (into_iter().map(into_value).map(from).collect())"))
+            f_ = fnd("C13.REC", v, "From<Value> does not rebuild arrays element by element in order (into_iter().map(into_value).map(from).collect())")
+            # another formulation (a loop pushing into a vector, ...): only what is wrong for any formulation is a verdict
+            arm = arms.get("Sequence", set())
+            names_ = [v.callee(x).name for x in arm if v.callee(x) is not None and v.callee(x).fn is not None]
+            if not any(n in ("rev", "skip", "take", "step_by", "filter", "filter_map", "dedup", "sort", "sort_by", "sort_by_key", "reverse", "truncate", "pop", "swap") for n in names_) \
+                    and any(n == "into_value" for n in names_) and any(n in ("from", "into") for n in names_):
+                f_.undecided = True
+                f_.what = "From<Value>: the array arm is not the into_iter().map(into_value).map(from).collect() chain: order / completeness not read (undecided)"
+            fs.append(f_)
         # Map: collect(map(closure(k, v) -> (k, from(into_value(v))), into_iter(map)))
         rs = results_in(v, arms.get("Map", set()))
         ok = False
@@ -249,7 +267,14 @@ def run(ctx):
                                             and call_name(cv, v0[3][0]) == "IntoValue::into_value" and strip_refs(v0[3][0][3][0]) == ("field", ("param", 2), None, "1")
                                         ok = okk and okv
         if not ok:
-            fs.append(fnd("C13.REC", v, "From<Value> does not rebuild objects entry by entry as (same key, conversion of the same entry's value)"))
+            f_ = fnd("C13.REC", v, "From<Value> does not rebuild objects entry by entry as (same key, conversion of the same entry's value)")
+            arm = arms.get("Map", set())
+            names_ = [v.callee(x).name for x in arm if v.callee(x) is not None and v.callee(x).fn is not None]
+            if not any(n in ("rev", "skip", "take", "step_by", "filter", "filter_map", "retain", "remove", "pop", "truncate") for n in names_) \
+                    and any(n == "into_value" for n in names_) and any(n in ("from", "into") for n in names_) and any(n in ("insert", "collect", "extend") for n in names_):
+                f_.undecided = True
+                f_.what = "From<Value>: the object arm is not the into_iter().map(|(k, v)| ..).collect() chain: entry correspondence not read (undecided)"
+            fs.append(f_)
     res.add("C13.TABLE/From", 9, fs)
     # ------------------------------------------------------------------ Deserr for serde_json::Value
     v = View(de)
